@@ -42,6 +42,7 @@ var (
 	ErrNestedFunctionCall            = errors.New("Nested function calls are not currently supported in SELECT")
 	ErrInvalidPeriod                 = errors.New("Please specify a period in the form period(5s) where 5s can be any valid Go duration expression")
 	ErrInvalidStride                 = errors.New("Please specify a stride in the form stride(5s) where 5s can be any valid Go duration expression")
+	ErrNotSelect                     = errors.New("Only SELECT statements are supported")
 )
 
 var aggregateFuncs = map[string]func(interface{}) expr.Expr{
@@ -196,21 +197,35 @@ type Query struct {
 
 // TableFor returns the table in the FROM clause of this query
 func TableFor(sql string) (string, error) {
-	parsed, err := sqlparser.Parse(sql)
+	stmt, err := parseSelect(sql)
 	if err != nil {
 		return "", err
 	}
-	stmt := parsed.(*sqlparser.Select)
 	return strings.ToLower(nodeToString(stmt.From[0])), nil
 }
 
 // Parse parses a SQL statement and returns a corresponding *Query object.
 func Parse(sql string) (*Query, error) {
-	parsed, err := sqlparser.Parse(sql)
+	stmt, err := parseSelect(sql)
 	if err != nil {
 		return nil, fmt.Errorf("Error parsing %v: %v", sql, err)
 	}
-	return parse(parsed.(*sqlparser.Select))
+	return parse(stmt)
+}
+
+// parseSelect parses the given SQL and makes sure that it is a plain SELECT
+// statement (as opposed to e.g. a DELETE, INSERT, UNION, SET or DDL statement,
+// which the SQL grammar accepts but zenodb doesn't support).
+func parseSelect(sql string) (*sqlparser.Select, error) {
+	parsed, err := sqlparser.Parse(sql)
+	if err != nil {
+		return nil, err
+	}
+	stmt, ok := parsed.(*sqlparser.Select)
+	if !ok {
+		return nil, fmt.Errorf("%v: %v", ErrNotSelect, reflect.TypeOf(parsed))
+	}
+	return stmt, nil
 }
 
 func parse(stmt *sqlparser.Select) (*Query, error) {
@@ -236,12 +251,12 @@ func parse(stmt *sqlparser.Select) (*Query, error) {
 		} else {
 			sql = q.HavingSQL
 		}
-		combinedFields, combinedParseErr := sqlparser.Parse(fmt.Sprintf("SELECT %v FROM whatever", sql))
+		combinedFields, combinedParseErr := parseSelect(fmt.Sprintf("SELECT %v FROM whatever", sql))
 		if combinedParseErr != nil {
 			return nil, fmt.Errorf("Unable to parse synthetic SQL query for combined fields: %v", combinedParseErr)
 		}
 		q.Fields = &selectClause{
-			stmt:    combinedFields.(*sqlparser.Select),
+			stmt:    combinedFields,
 			fielded: fielded{sql: sql},
 		}
 	}
